@@ -52,9 +52,9 @@ func checkEdges(c EdgesCase) error {
 		}
 	}
 	for name, content := range files {
-		cli.Write(dir, name, content)
+		cli.WriteIn(dir, name, content)
 	}
-	args := append([]string{"compare", "edges", "-c", cli.Write(dir, "comp.nw", compFile)}, extra...)
+	args := append([]string{"compare", "edges", "-c", cli.WriteIn(dir, "comp.nw", compFile)}, extra...)
 	r := cli.Run(dir, stdin, args...)
 	ctx := fmt.Sprintf("\n gotree %v\n ref %s\n%s output\n%s", args, ref.Write(c.Ref), comps.String(), clipOut(r.Stdout))
 	if r.Code != 0 || r.TimedOut {
